@@ -158,6 +158,9 @@ def run(tier):
 
 def replay(path):
     j = json.loads(Path(path).read_text())
+    if j.get("replay", {}).get("engine") == "enc2":
+        import c11_enc2
+        return c11_enc2.replay_enc2(j["replay"])
     case = j.get("replay", {}).get("case")
     if not case:
         print(json.dumps(j, indent=1)[:3000])
